@@ -21,6 +21,7 @@
 #include <unifex/stop_token_concepts.hpp>
 
 #include <cstddef>
+#include <exception>
 #include <type_traits>
 #include <utility>
 
@@ -97,12 +98,26 @@ private:
       static void execute_impl(operation_base* p) noexcept {
         auto& self = *static_cast<type*>(p);
         if (is_stop_never_possible_v<stop_token_type_t<Receiver&>>) {
-          unifex::set_value(static_cast<Receiver&&>(self.receiver_));
+          if constexpr (is_nothrow_receiver_of_v<Receiver>) {
+            unifex::set_value(static_cast<Receiver&&>(self.receiver_));
+          } else {
+            UNIFEX_TRY { unifex::set_value(static_cast<Receiver&&>(self.receiver_)); }
+            UNIFEX_CATCH(...) {
+              unifex::set_error(static_cast<Receiver&&>(self.receiver_), std::current_exception());
+            }
+          }
         } else {
           if (get_stop_token(self.receiver_).stop_requested()) {
             unifex::set_done(static_cast<Receiver&&>(self.receiver_));
           } else {
-            unifex::set_value(static_cast<Receiver&&>(self.receiver_));
+            if constexpr (is_nothrow_receiver_of_v<Receiver>) {
+              unifex::set_value(static_cast<Receiver&&>(self.receiver_));
+            } else {
+              UNIFEX_TRY { unifex::set_value(static_cast<Receiver&&>(self.receiver_)); }
+              UNIFEX_CATCH(...) {
+                unifex::set_error(static_cast<Receiver&&>(self.receiver_), std::current_exception());
+              }
+            }
           }
         }
       }
